@@ -1603,7 +1603,11 @@ func main() {
 		if thorough {
 			cases = 400
 		}
-		for i := 0; i < cases; i++ {
+		extra := 6
+		if thorough {
+			extra = 30
+		}
+		for i := 0; i < cases+extra; i++ {
 			class := 0
 			switch {
 			case i%10 == 9:
@@ -1613,6 +1617,28 @@ func main() {
 			}
 			base := []int64{0, 1, 100, 1 << 33}[r.Intn(4)]
 			plan := genPlan(r, class, thorough)
+			if i >= cases {
+				// multi-block family (seeded C05-m11): ONE compressed entry whose decompressed content spans several
+				// 32 KiB snappy/xerial blocks and 64 KiB pages, keys and values of a few KB up to 20 KB so that they
+				// straddle the block boundaries; every codec, v1 wrapper and v2 batch alternately
+				n := 5 + r.Intn(6)
+				rs := genRecs(r, n, 0, true)
+				for j := range rs {
+					rs[j].key = gen.Bytes(r, []int{0, 3, 1000, 4097}[r.Intn(4)])
+					rs[j].value = gen.Bytes(r, []int{8191, 16385, 20000, 12000, 30000}[r.Intn(5)])
+					if r.Intn(3) == 0 {
+						rs[j].value = compressible(r, 20000+r.Intn(20000))
+					}
+				}
+				k := "w1"
+				if i%2 == 1 {
+					k = "b2"
+				}
+				plan = []entryPlan{{kind: k, codec: 1 + (i-cases)%4, recs: rs, extra: extraBits(r, k)}}
+				if i%3 == 0 {
+					plan[0].codec = 2 // snappy more often: the only first-party framing
+				}
+			}
 			bt := build(o, r, base, plan)
 			desc := strings.Join(bt.desc, "+")
 			zs := ""
